@@ -3,6 +3,11 @@
 import json, os
 V = "/verif"
 CHECKS = {
+ "C16": dict(cat="exploration",
+   text="totality: 14 public parsers per input under catch_unwind, acceptance must consume the whole input for the three whole-request parsers; inputs = exhaustive sweep of every char offset of a 166-request corpus (from the repo's tests/examples) x {6 multi-byte insertions, delete, duplicate token, truncate}, token-level mutations of generated queries, deep nesting ({ / << / ( x 10^2..10^5) in a child process on a 2 MiB-stack thread, and (thorough) a 5 M-execution libFuzzer campaign with the same oracle in the target; faithfulness: generated SELECT/update syntax trees printed twice with independent layout choices (whitespace, # comments, keyword case, ?x/$x, optional WHERE, ./;/, abbreviations, quote forms, prefixed names) and the parsed AST compared structurally with the tree and between the two printings",
+   note="trusted: documented AST normal form of shared::query with the merge-adjacent-BGP / one-member-group normalisation on both sides; harness tokeniser for raw operand slices; stack exhaustion observed as death of a child whose parser thread has a 2 MiB stack; layout restricted to what the code and tests accept",
+   tech="property-based round-trip testing (proptest) + exhaustive mutation sweep + coverage-guided fuzzing (libFuzzer) with an in-target oracle"),
+
  "C13": dict(cat="exploration",
    text="parameter-driven document generation for the five loaders (N-Triples, N-Quads, Turtle, N3, RDF/XML in their line-oriented subsets; comments/blank lines, prefixes only at the top or re-bound mid-document, ;/, shorthand, CRLF) with an exact model oracle (lexical quads after == before + document triples, as multisets), a split-document metamorphic relation (one call == several small documents) and a cross-format relation (same triples in two formats load identically); exhaustive enumeration of format x boundary size (0,1,2,999,1000,1001,1999,2000,2001,2500 lines; 8191/8192/8193/16385 XML triples) x prior content (empty / API / other loader) x rayon pool size (1,2,16), plus random cases",
    note="trusted: lexical conventions from README and tests; the N3 literal convention is read from a one-statement load (open finding C13-F4: N3 keeps the quotes); thread schedules only sampled through pool sizes; multi-line N3 statements and N3 ',' / 'a' are outside the generated subset",
